@@ -277,3 +277,166 @@ pub fn classes(n: usize, eq: impl Fn(usize, usize) -> bool) -> Vec<Vec<usize>> {
     }
     out
 }
+
+// ------------------------------------------------------------------------------------------------
+// clustering oracles (single-edge graphs; self-loops never count)
+
+/// 0/1 adjacency without the diagonal; symmetric when undirected
+pub fn adjacency(g: &NormGraph) -> Vec<Vec<f64>> {
+    let n = g.n;
+    let mut a = vec![vec![0.0; n]; n];
+    for (i, j, _) in &g.edges {
+        if i != j {
+            a[*i][*j] = 1.0;
+            if !g.directed {
+                a[*j][*i] = 1.0;
+            }
+        }
+    }
+    a
+}
+
+/// cube roots of weights normalised by the largest weight, without the diagonal
+pub fn cbrt_weights(g: &NormGraph) -> Vec<Vec<f64>> {
+    let n = g.n;
+    let maxw = g.edges.iter().map(|e| e.2).fold(f64::NEG_INFINITY, f64::max);
+    let mut a = vec![vec![0.0; n]; n];
+    for (i, j, w) in &g.edges {
+        if i != j {
+            a[*i][*j] = (w / maxw).cbrt();
+            if !g.directed {
+                a[*j][*i] = a[*i][*j];
+            }
+        }
+    }
+    a
+}
+
+fn mat_mul(a: &[Vec<f64>], b: &[Vec<f64>]) -> Vec<Vec<f64>> {
+    let n = a.len();
+    let mut c = vec![vec![0.0; n]; n];
+    for i in 0..n {
+        for k in 0..n {
+            if a[i][k] == 0.0 {
+                continue;
+            }
+            for j in 0..n {
+                c[i][j] += a[i][k] * b[k][j];
+            }
+        }
+    }
+    c
+}
+
+/// undirected: number of triangles through each node and the loop-free degree
+pub fn triangles_and_degrees(g: &NormGraph) -> (Vec<usize>, Vec<usize>) {
+    let a = adjacency(g);
+    let n = g.n;
+    let mut t = vec![0usize; n];
+    let mut d = vec![0usize; n];
+    for v in 0..n {
+        d[v] = (0..n).filter(|u| a[v][*u] > 0.0).count();
+        for u in 0..n {
+            for w in (u + 1)..n {
+                if a[v][u] > 0.0 && a[v][w] > 0.0 && a[u][w] > 0.0 {
+                    t[v] += 1;
+                }
+            }
+        }
+    }
+    (t, d)
+}
+
+/// clustering coefficient of every node by the definitions in the statement
+pub fn clustering_oracle(g: &NormGraph, weighted: bool) -> Vec<f64> {
+    let n = g.n;
+    let a = adjacency(g);
+    let m = if weighted { cbrt_weights(g) } else { a.clone() };
+    if !g.directed {
+        (0..n)
+            .map(|v| {
+                let d = (0..n).filter(|u| a[v][*u] > 0.0).count() as f64;
+                let mut t = 0.0;
+                for u in 0..n {
+                    for w in (u + 1)..n {
+                        if a[v][u] > 0.0 && a[v][w] > 0.0 && a[u][w] > 0.0 {
+                            t += if weighted { m[v][u] * m[u][w] * m[w][v] } else { 1.0 };
+                        }
+                    }
+                }
+                if t == 0.0 || d < 2.0 {
+                    0.0
+                } else {
+                    2.0 * t / (d * (d - 1.0))
+                }
+            })
+            .collect()
+    } else {
+        // Fagiolo: [(M + M^T)^3]_vv / (2 (d_tot (d_tot - 1) - 2 d_bi))
+        let mut s = vec![vec![0.0; n]; n];
+        for i in 0..n {
+            for j in 0..n {
+                s[i][j] = m[i][j] + m[j][i];
+            }
+        }
+        let s2 = mat_mul(&s, &s);
+        let s3 = mat_mul(&s2, &s);
+        (0..n)
+            .map(|v| {
+                let dtot: f64 = (0..n).map(|u| a[v][u] + a[u][v]).sum();
+                let dbi: f64 = (0..n).map(|u| a[v][u] * a[u][v]).sum();
+                let denom = 2.0 * (dtot * (dtot - 1.0) - 2.0 * dbi);
+                if s3[v][v] == 0.0 || denom <= 0.0 {
+                    0.0
+                } else {
+                    s3[v][v] / denom
+                }
+            })
+            .collect()
+    }
+}
+
+/// undirected: histogram over incident (non-loop) edges of the number of triangles on that edge
+pub fn generalized_degree_oracle(g: &NormGraph) -> Vec<std::collections::BTreeMap<usize, usize>> {
+    let a = adjacency(g);
+    let n = g.n;
+    (0..n)
+        .map(|v| {
+            let mut h = std::collections::BTreeMap::new();
+            for u in 0..n {
+                if a[v][u] > 0.0 {
+                    let c = (0..n).filter(|w| *w != u && *w != v && a[v][*w] > 0.0 && a[u][*w] > 0.0).count();
+                    *h.entry(c).or_insert(0) += 1;
+                }
+            }
+            h
+        })
+        .collect()
+}
+
+/// undirected: squares clustering (Lind et al., as documented by NetworkX), loop-free neighbour sets
+pub fn square_clustering_oracle(g: &NormGraph) -> Vec<f64> {
+    let a = adjacency(g);
+    let n = g.n;
+    let nb: Vec<Vec<usize>> = (0..n).map(|v| (0..n).filter(|u| a[v][*u] > 0.0).collect()).collect();
+    (0..n)
+        .map(|v| {
+            let mut squares = 0.0;
+            let mut potential = 0.0;
+            for (x, &u) in nb[v].iter().enumerate() {
+                for &w in nb[v].iter().skip(x + 1) {
+                    let q = nb[u].iter().filter(|z| **z != v && nb[w].contains(z)).count() as f64;
+                    let theta = if a[u][w] > 0.0 { 1.0 } else { 0.0 };
+                    let degm = q + 1.0 + theta;
+                    squares += q;
+                    potential += (nb[u].len() as f64 - degm) + (nb[w].len() as f64 - degm) + q;
+                }
+            }
+            if potential > 0.0 {
+                squares / potential
+            } else {
+                0.0
+            }
+        })
+        .collect()
+}
